@@ -63,8 +63,11 @@ func genCronSys(r *rand.Rand, n int, tier string) []Case {
 				ops = append(ops, map[string]interface{}{"loc": l, "id": id, "op": "addsched", "delay_ms": d})
 			}
 		}
+		// 1 case in 3: every location has a write key and every client presents it: with the right key
+		// the behaviour is that of an unprotected location, INCLUDING what the scheduled rules' actions
+		// write when the cron service runs them on a sub-context of the adder's context
 		cases = append(cases, Case{"locs": locs, "ids": []interface{}{"r0", "r1"}, "ops": ops, "linear": r.Intn(2) == 0,
-			"restart": restart})
+			"restart": restart, "keyed": r.Intn(3) == 0})
 	}
 	return cases
 }
@@ -117,10 +120,22 @@ func execCronSysCase(c Case) {
 		c["setup_error"] = err.Error()
 		return
 	}
+	keyed := boolean(c["keyed"])
 	newctx := func() *core.Context {
 		cx := core.NewContext("rh")
 		cx.Verbosity = core.NOTHING
+		if keyed {
+			cx.WriteKey = "wk"
+		}
 		return cx
+	}
+	if keyed {
+		for _, li := range list(c["locs"]) {
+			if _, err := s.AddFact(newctx(), str(li), "", `{"!writeKey":"wk"}`); err != nil {
+				c["setup_error"] = err.Error()
+				return
+			}
+		}
 	}
 	action := map[string]interface{}{"code": `Env.AddFact("", {"ranRule": ruleId, "at": location});`}
 	start := time.Now()
